@@ -46,6 +46,7 @@ class Locale:
         )
         self.info = combine_dicts(language_info, locale_specific_info)
         self.info.pop("locale_specific", None)
+        self._abbreviations = {}
 
     def is_applicable(self, date_string, strip_timezone=False, settings=None):
         """
@@ -268,13 +269,12 @@ class Locale:
 
     def _get_abbreviations(self, settings):
         dictionary = self._get_dictionary(settings=settings)
-        abbreviations = []
-        if self._abbreviations is None:
-            for item in dictionary:
-                if item.endswith(".") and len(item) > 1:
-                    abbreviations.append(item)
-            self._abbreviations = abbreviations
-        return self._abbreviations
+        # the dictionary depends on the settings (SKIP_TOKENS), so do the abbreviations
+        if settings.registry_key not in self._abbreviations:
+            self._abbreviations[settings.registry_key] = [
+                item for item in dictionary if item.endswith(".") and len(item) > 1
+            ]
+        return self._abbreviations[settings.registry_key]
 
     def _sentence_split(self, string, settings):
         abbreviations = self._get_abbreviations(settings=settings)
